@@ -630,7 +630,7 @@ impl<'de, R: Read<'de>> Deserializer<R> {
         };
 
         if f.is_infinite() {
-            Err(self.error(ErrorCode::NumberOutOfRange))
+            Err(self.peek_error(ErrorCode::NumberOutOfRange))
         } else {
             Ok(if positive { f } else { -f })
         }
@@ -650,7 +650,7 @@ impl<'de, R: Read<'de>> Deserializer<R> {
                     if exponent >= 0 {
                         f *= pow;
                         if f.is_infinite() {
-                            return Err(self.error(ErrorCode::NumberOutOfRange));
+                            return Err(self.peek_error(ErrorCode::NumberOutOfRange));
                         }
                     } else {
                         f /= pow;
@@ -662,7 +662,7 @@ impl<'de, R: Read<'de>> Deserializer<R> {
                         break;
                     }
                     if exponent >= 0 {
-                        return Err(self.error(ErrorCode::NumberOutOfRange));
+                        return Err(self.peek_error(ErrorCode::NumberOutOfRange));
                     }
                     f /= 1e308;
                     exponent += 308;
@@ -891,7 +891,7 @@ impl<'de, R: Read<'de>> Deserializer<R> {
         };
 
         if f.is_infinite() {
-            Err(self.error(ErrorCode::NumberOutOfRange))
+            Err(self.peek_error(ErrorCode::NumberOutOfRange))
         } else {
             Ok(if positive { f } else { -f })
         }
